@@ -92,7 +92,11 @@ def obsEventBytes (s : String) : List Nat :=
     if t.startsWith "a" then parseUnits 8 (t.drop 1).toString
     else if t.startsWith "c" then
       match (t.drop 1).toString.splitOn "x" with
-      | [cc, n] => List.replicate (n.toNat?.getD 0) (hexToNat cc)
+      | [cc, n] =>
+        -- a pad request no admissible width produces (the writer was asked for gigabytes) is never materialised:
+        -- one out-of-range unit stands for it, so the comparison with the specified bytes fails
+        let k := n.toNat?.getD 0
+        if k > 16777216 then [0xFFFFFFFF] else List.replicate k (hexToNat cc)
       | _ => []
     else []
 
